@@ -4,13 +4,16 @@ package driver
 
 import (
 	"context"
+	"encoding/binary"
 	"fmt"
+	"io"
 	"net"
 	"regexp"
 	"sort"
 	"strconv"
 	"strings"
 	"sync"
+	"sync/atomic"
 	"testing"
 	"time"
 
@@ -55,6 +58,47 @@ func c16Discover(asyncLimit int, subnets []string) string {
 // c16DiscoverReg: the same with devices already registered in EdgeX and operating (UP) at the given
 // addresses on the scanned port: discovery enumerates them like every other address of their subnet
 // (the estimate counts them) but does not probe them. The run gets 25 s.
+// c16Slow: when set, every probed host behaves as a SLOW reader: each of its answers comes after 0.9 of the probe
+// timeout (connection event, the answer to GetSupportedVersion, then it hangs up on the next request), so one probe
+// takes well over twice the probe timeout although no single step exceeds it.
+var c16Slow atomic.Bool
+
+func c16SlowHost(c net.Conn, step time.Duration) {
+	defer c.Close()
+	frame := func(typ uint16, id uint32, payload []byte) []byte {
+		b := make([]byte, 10, 10+len(payload))
+		binary.BigEndian.PutUint16(b[0:], 1<<10|typ)
+		binary.BigEndian.PutUint32(b[2:], uint32(10+len(payload)))
+		binary.BigEndian.PutUint32(b[6:], id)
+		return append(b, payload...)
+	}
+	time.Sleep(step)
+	// ReaderEventNotification{UTCTimestamp 1, ConnectionAttemptEvent Success}
+	if _, err := c.Write(frame(63, 1, []byte{0x00, 0xF6, 0x00, 0x16, 0x00, 0x80, 0x00, 0x0C, 0, 0, 0, 0, 0, 0, 0, 1, 0x01, 0x00, 0x00, 0x06, 0, 0})); err != nil {
+		return
+	}
+	hdr := make([]byte, 10)
+	for n := 0; n < 2; n++ {
+		_ = c.SetReadDeadline(time.Now().Add(10 * time.Second))
+		if _, err := io.ReadFull(c, hdr); err != nil {
+			return
+		}
+		l := binary.BigEndian.Uint32(hdr[2:6])
+		if l > 10 {
+			if _, err := io.CopyN(io.Discard, c, int64(l-10)); err != nil {
+				return
+			}
+		}
+		time.Sleep(step)
+		if n == 0 {
+			// ERROR_MESSAGE{LLRPStatus VersionUnsupported}: a 1.0.1 reader declining GetSupportedVersion
+			if _, err := c.Write(frame(100, binary.BigEndian.Uint32(hdr[6:10]), []byte{0x01, 0x1F, 0x00, 0x08, 0x00, 0x6E, 0x00, 0x00})); err != nil {
+				return
+			}
+		}
+	}
+}
+
 func c16DiscoverReg(asyncLimit int, subnets []string, registered []uint32) string {
 	ln, err := net.Listen("tcp4", "0.0.0.0:0")
 	if err != nil {
@@ -88,6 +132,10 @@ func c16DiscoverReg(asyncLimit int, subnets []string, registered []uint32) strin
 			mu.Lock()
 			got = append(got, uint32(ip[0])<<24|uint32(ip[1])<<16|uint32(ip[2])<<8|uint32(ip[3]))
 			mu.Unlock()
+			if c16Slow.Load() {
+				go c16SlowHost(c, 450*time.Millisecond)
+				continue
+			}
 			_ = c.Close()
 		}
 	}()
@@ -305,6 +353,12 @@ func TestVerifC16(t *testing.T) {
 				}
 			}
 			fmt.Fprintf(w, "%s\n", c16Discover(limit, subnets))
+		case "discslow":
+			// disc against slow readers (see c16Slow): an uncancelled run enumerates every host however long the probes take
+			limit, _ := strconv.Atoi(f[1])
+			c16Slow.Store(true)
+			fmt.Fprintf(w, "%s\n", c16Discover(limit, strings.Split(f[2], ",")))
+			c16Slow.Store(false)
 		case "discreg":
 			// disc with devices registered and operating at the listed addresses (uint32, comma separated)
 			limit, _ := strconv.Atoi(f[1])
